@@ -97,6 +97,7 @@ struct Sim {
     frames: u64,
     gpsd_next: usize,
     gpsd_lost: bool,
+    outage_used: u32,
 }
 
 static SIM: Mutex<Option<Sim>> = Mutex::new(None);
@@ -277,6 +278,7 @@ fn with_sim<T>(f: impl FnOnce(&mut Sim) -> T) -> T {
             frames: 0,
             gpsd_next: 0,
             gpsd_lost: false,
+            outage_used: 0,
         };
         *MAIN_THREAD.lock().unwrap_or_else(|e| e.into_inner()) = Some(std::thread::current().id());
         // the log is buffered; whatever way the process ends normally (return from main, panic
@@ -388,6 +390,17 @@ pub mod net {
                 let t = sim.now_us + 1_000;
                 sim.advance_to(t);
                 return Err(io::Error::new(io::ErrorKind::ConnectionRefused, "simulated: connection refused"));
+            }
+            if let Some((at, n)) = sim.sc.outage {
+                if i == at && sim.outage_used < n {
+                    sim.outage_used += 1;
+                    let t = sim.now_us + 1_000;
+                    sim.advance_to(t);
+                    if sim.outage_used == 1 || sim.outage_used == n {
+                        sim.log(&format!("CONNECT refuse outage attempt {} of {n}", sim.outage_used));
+                    }
+                    return Err(io::Error::new(io::ErrorKind::ConnectionRefused, "simulated: connection refused"));
+                }
             }
             sim.next_connect += 1;
             for (at, path, what) in sim.sc.file_ops.clone() {
